@@ -318,8 +318,9 @@ theorem rf_eq_card_symmDiff (a b : List Int) : rf a b = (symmDiff a.toFinset b.t
 theorem rf_symm (a b : List Int) : rf a b = rf b a := by
   rw [rf_eq_card_symmDiff, rf_eq_card_symmDiff, symmDiff_comm]
 
-/-- zero between equal split sets — in particular between a tree and any re-drawing of it
-    (`C01.rooted_splits_iff_topology`, `C01.unrooted_splits_invariant_under_inversion`, `C01.suppress_keeps_masks`) -/
+/-- zero exactly between equal split SETS (a statement about two lists of integers, nothing more).  That the split sets of two
+    trees are equal iff the trees are re-drawings of one another is composed with this lemma elsewhere:
+    `rf_zero_iff_topology` (rooted) and `rf_zero_iff_unrooted_topology` (not rooted). -/
 theorem rf_zero_iff (a b : List Int) : rf a b = 0 ↔ ∀ x, x ∈ a ↔ x ∈ b := by
   rw [rf_eq_card_symmDiff, Finset.card_eq_zero, ← Finset.bot_eq_empty, symmDiff_eq_bot]
   constructor
@@ -661,9 +662,11 @@ theorem dist_zero_iff (m1 m2 : List (Int × EdgeRec)) (hn1 : (keys m1).Nodup) (h
       · exact out k hk
     · intro he k _; rw [he k]; simp
 
-/-- link to the square root the code returns: the squared distance the model computes is non-negative, so `euclidean_distance`
-    is its genuine square root `√w`; `√w = 0 ↔ w = 0`, hence the zero / symmetry / congruence theorems about `euclidSq`
-    transfer verbatim to the distance itself (the triangle inequality is `euclid_triangle`, stated on the roots) -/
+/-- the squared distance the model computes is non-negative, and its real square root is 0 iff it is 0.  This is ALL that is stated
+    here about the root: the model has no square root (the driver prints the square, the harness takes the root of the
+    model's value before comparing), so "symmetric / zero / congruent" are proved for `euclidSq` only and transfer to
+    `euclidean_distance` on the assumption — checked by the correspondence, not proved — that the code returns `√` of this
+    value; the triangle inequality is the one theorem stated on the roots themselves (`euclid_triangle`). -/
 theorem euclidSq_nonneg (m1 m2 : List (Int × EdgeRec)) (hn1 : (keys m1).Nodup) (hn2 : (keys m2).Nodup) (w : Rat)
     (h : euclidSq m1 m2 = some w) : 0 ≤ w ∧ (Real.sqrt (w : ℝ) = 0 ↔ w = 0) := by
   have h0 : 0 ≤ w := by
@@ -857,10 +860,13 @@ theorem splits_unrooted_nsplits (r : Option Bool) (hr : r ≠ some true) (t : T)
   · rintro ⟨m, hm, rfl⟩; exact ⟨_, ⟨m, hm, rfl⟩, rfl⟩
   · rintro ⟨s, ⟨m, hm, rfl⟩, rfl⟩; exact ⟨m, hm, rfl⟩
 
-/-- **moving the seed of an unrooted tree along any path keeps every unweighted distance** (`rf_zero_seed_move_partial`
-    iterated): if the encoded forms of two not-rooted trees are connected by a path of seed moves (each move makes a child of
-    the seed the new seed, the old seed keeping at least one other child), then RF between them is 0, and false positives /
-    negatives and the missing-split set against any third tree are the same for both, in both argument positions -/
+/-- **a path of seed moves between the ENCODED forms keeps every unweighted distance** (`rf_zero_seed_move_partial` iterated).
+    Read the hypothesis `hp` carefully: it is a path of `Hier.SeedStep`s between the mask-labelled views of the two trees AFTER
+    the encoder's basal collapse and unifurcation suppression; nothing here shows that moving the seed of the tree as drawn
+    (or `Tree.reseed_at`) produces such a path.  For the statement about trees as drawn — any seed position, any child order,
+    bifurcating seeds included — use `rf_zero_iff_unrooted_topology` / `fpfn_redraw_unrooted`, which supersede this theorem.
+    Conclusion: RF between the two is 0, and false positives / negatives and the missing-split set against any third tree are
+    the same for both, in both argument positions. -/
 theorem fpfn_seed_path (r r' r2 : Option Bool) (hr : r ≠ some true) (hr' : r' ≠ some true) (t t' u : T)
     (hg : Hier.Good (T.toH (C01.encodeTree r true true t)))
     (h0 : Hier.mask (T.toH (C01.encodeTree r true true t)) ≠ 0)
@@ -1300,7 +1306,13 @@ example :
   · simp [invertT, WFT, WFTL, OWF]
 end DendroModel.C04
 
-/-! ## staleness switch, namespace refusal, histories (Model/C04State.lean) -/
+/-! ## staleness switch, namespace refusal, histories (Model/C04State.lean)
+The definitions below are executed by the driver: `sdist` runs `fpfnCall` / `missingCall` on two tree objects with given stored
+encodings, `hist` runs a whole history through `step` / `run` (edits, calls with either flag, `weightedCall`) and prints every
+call's answer; the harness sends every generated history (with the library's own in-place re-drawing of its arguments handed
+to the model as edits) and compares answer by answer.  The theorems of this section are true by construction of `step` and of
+the `if`s in the call functions — they record what the model says; that the LIBRARY behaves like the model is what the
+correspondence checks, not what is proved. -/
 namespace DendroModel.C04.Aux
 open DendroModel DendroModel.C04
 
@@ -1416,4 +1428,66 @@ example :
     (fpfnCall false st.1 st.2).1 = some (1, 1) ∧ (fpfnCall true st.1 st.2).1 = some (0, 0) := by decide
 example : (fpfnCall false ⟨0, some true, exA, none⟩ ⟨1, some true, exA, none⟩).1 = none := by decide
 
+end DendroModel.C04
+
+/-! ## final round: the unrooted half of "zero between re-drawings" -/
+namespace DendroModel.C04.Aux
+open DendroModel DendroModel.C04
+/-- a rooting flag that is unset behaves as unrooted everywhere in the encoder -/
+theorem edgeRecs_not_rooted (r : Option Bool) (hr : r ≠ some true) (t : T) : edgeRecs r t = edgeRecs (some false) t := by
+  cases r with
+  | none => rfl
+  | some b => cases b with
+    | false => rfl
+    | true => exact absurd rfl hr
+end DendroModel.C04.Aux
+namespace DendroModel.C04
+open DendroModel DendroModel.C04.Aux
+
+/-- **RF is zero exactly between re-drawings (not rooted)**: for two well-formed trees that are not rooted, over the same ≥ 3
+    taxa, the symmetric-difference distance on the split lists the driver computes is 0 iff they are the same UNROOTED
+    topology — the same tree up to child order once unifurcations are suppressed and both are re-seeded at the node their
+    lowest leaf `k` hangs from (`C01.canonU`).  No restriction on the seed: bifurcating seeds (basal collapse, whichever
+    child it keeps), any seed position, any child order, inserted unifurcations are all covered.  Composition of `rf_zero_iff`,
+    `edgeRecs_splits_eq_encode` and `C01.encode_unrooted_iff_topology`; supersedes `rf_zero_seed_move_partial`,
+    `fpfn_seed_path` and the not-rooted half of `fpfn_child_order_partial`. -/
+theorem rf_zero_iff_unrooted_topology (r r' : Option Bool) (hr : r ≠ some true) (hr' : r' ≠ some true) (t u : T)
+    (hgt : Hier.Good (T.toH t)) (hgu : Hier.Good (T.toH u)) (hL : t.mask = u.mask) (h3 : C01.Bridge.ThreeTaxa t.mask)
+    (k : Nat) (hk : Lsb.lsb t.mask = 1 <<< k) :
+    rf ((edgeRecs r t).map (·.split)) ((edgeRecs r' u).map (·.split)) = 0
+      ↔ Hier.Iso (C01.canonU k (Hier.sup (T.toH t))) (C01.canonU k (Hier.sup (T.toH u))) := by
+  rw [edgeRecs_not_rooted r hr, edgeRecs_not_rooted r' hr', rf_zero_iff, edgeRecs_splits_eq_encode, edgeRecs_splits_eq_encode]
+  exact C01.encode_unrooted_iff_topology true true true true t u hgt hgu hL h3 k hk
+
+/-- **re-drawing a tree that is not rooted changes no unweighted distance**: same unrooted topology ⇒ false positives /
+    negatives (hence RF) and the missing-split set against any third tree are the same, in both argument positions -/
+theorem fpfn_redraw_unrooted (r r' r2 : Option Bool) (hr : r ≠ some true) (hr' : r' ≠ some true) (t t' u : T)
+    (hgt : Hier.Good (T.toH t)) (hgt' : Hier.Good (T.toH t')) (hL : t.mask = t'.mask) (h3 : C01.Bridge.ThreeTaxa t.mask)
+    (k : Nat) (hk : Lsb.lsb t.mask = 1 <<< k)
+    (h : Hier.Iso (C01.canonU k (Hier.sup (T.toH t))) (C01.canonU k (Hier.sup (T.toH t')))) :
+    fpfn ((edgeRecs r t).map (·.split)) ((edgeRecs r2 u).map (·.split))
+        = fpfn ((edgeRecs r' t').map (·.split)) ((edgeRecs r2 u).map (·.split))
+    ∧ fpfn ((edgeRecs r2 u).map (·.split)) ((edgeRecs r t).map (·.split))
+        = fpfn ((edgeRecs r2 u).map (·.split)) ((edgeRecs r' t').map (·.split))
+    ∧ (∀ x, x ∈ missing ((edgeRecs r t).map (·.split)) ((edgeRecs r2 u).map (·.split))
+          ↔ x ∈ missing ((edgeRecs r' t').map (·.split)) ((edgeRecs r2 u).map (·.split))) := by
+  have hs := (rf_zero_iff _ _).mp ((rf_zero_iff_unrooted_topology r r' hr hr' t t' hgt hgt' hL h3 k hk).mpr h)
+  refine ⟨fpfn_congr _ _ _ _ hs (fun _ => Iff.rfl), fpfn_congr _ _ _ _ (fun _ => Iff.rfl) hs, ?_⟩
+  intro x; rw [missing_spec, missing_spec, hs x]
+
+end DendroModel.C04
+
+namespace DendroModel.C04
+open DendroModel DendroModel.C04.Aux
+/-- sample with a BIFURCATING seed (basal collapse): `((t0,t1),(t2,t3))`, the same unrooted tree as `exU` and `exV` -/
+def Aux.exW : T := .node 0 none none none [.node 1 none none none [.node 2 (some 0) none none [], .node 3 (some 1) none none []],
+  .node 6 none none none [.node 4 (some 2) none none [], .node 5 (some 3) none none []]]
+example : Hier.Good (T.toH exU) ∧ Hier.Good (T.toH exW) ∧ exU.mask = exW.mask ∧ C01.Bridge.ThreeTaxa exU.mask
+    ∧ Lsb.lsb exU.mask = 1 <<< 0 := by
+  refine ⟨?_, ?_, by decide, ⟨0, 1, 2, ?_, ?_, ?_, by decide, by decide, by decide⟩, by decide⟩
+  · simp [exU, T.toH, T.toHL, Hier.Good, Hier.GoodL, Hier.mask, Hier.maskL]
+  · simp [exW, T.toH, T.toHL, Hier.Good, Hier.GoodL, Hier.mask, Hier.maskL]
+  all_goals (show _ ∈ Hier.bits _; simp [Hier.bits]; decide)
+example : rf ((edgeRecs (some false) exU).map (·.split)) ((edgeRecs none exW).map (·.split)) = 0 := by decide
+example : (edgeRecs (some false) exW).map (·.split) = [14, 2, 12, 4, 8, 0] := by decide
 end DendroModel.C04
